@@ -3,67 +3,34 @@ import PlumVerif.Props.C01Session
 C01 on a reader object whose calls are abandoned at ANY of the four await points of `read()`:
 the three of the stream (C01Session) and the last one, `await Frame.create(…)`, where the frame has
 been consumed and has passed every gate (`Model/ReaderSession.sessionX`).
+
+Headline (round-8 audit, item 10): `C01.sessionX_calls_are_reads_of_the_fed_bytes` and `C01.sessionX_delivered_bytes`
+(Props/C01SessionBytes.lean): for every split `sessionX pending steps = evs₁ ++ .call o n :: evs₂` the bytes fed up to
+that call are `pre ++ consumed ++ post` with `|pre| = takenSum evs₁` (what the earlier calls, completed or abandoned
+anywhere, took), `|consumed| = n`, `readFrame (consumed ++ post) = (o, post)`, and for a delivery `consumed = noise ++ fr`,
+`wf fr f`.  The two theorems below are their length-only corollaries (kept for the registry and the harness).
 -/
 namespace PlumVerif.C01
 open PlumVerif
 
-theorem callAtCreate_calls (s : List Byte) :
-    ∀ o n, SEv.call o n ∈ (callAtCreate s).1 → (readFrame s).1 = o ∧ n = s.length - (readFrame s).2.length := by
-  intro o n h
-  unfold callAtCreate at h
-  split at h
-  · simp at h
-  · dsimp only at h
-    split at h
-    · simp at h
-    · simp at h
-    · simp only [List.mem_singleton] at h
-      injection h with h1 h2
-      exact ⟨h1.symm, h2⟩
-
-/-- every completed call of such a session is one call of `readFrame` on some byte stream: nothing
-is carried from an abandoned call — wherever it was abandoned — to a later one -/
+/-- corollary (the older form) of `sessionX_calls_are_reads_of_the_fed_bytes` (C01SessionBytes): every completed call
+of such a session is one call of `readFrame` on some byte stream -/
 theorem sessionX_calls_are_reads (steps : List Step) : ∀ (pending : List Byte) (o : Outcome) (n : Nat),
     SEv.call o n ∈ sessionX pending steps →
       ∃ s', (readFrame s').1 = o ∧ n = s'.length - (readFrame s').2.length := by
-  induction steps with
-  | nil =>
-    intro pending o n h
-    simp only [sessionX, List.mem_map] at h
-    obtain ⟨p, hp, hpe⟩ := h
-    injection hpe with h1 h2
-    subst h1; subst h2
-    exact readAllFuel_calls _ _ p hp
-  | cons st steps ih =>
-    intro pending o n h
-    cases st with
-    | feed c => exact ih _ o n (by simpa [sessionX] using h)
-    | calls =>
-      simp only [sessionX, List.mem_append, List.mem_map, List.mem_singleton] at h
-      rcases h with (⟨p, hp, hpe⟩ | h) | h
-      · injection hpe with h1 h2
-        subst h1; subst h2
-        exact completedFuel_calls _ _ p hp
-      · cases h
-      · exact ih _ o n h
-    | callAbandonedAtCreate =>
-      simp only [sessionX, List.mem_append] at h
-      rcases h with h | h
-      · exact ⟨pending, callAtCreate_calls pending o n h⟩
-      · exact ih _ o n h
+  intro pending o n h
+  obtain ⟨e1, e2, he⟩ := List.append_of_mem h
+  obtain ⟨_, _, _, hc⟩ := sessionX_calls_are_reads_of_the_fed_bytes steps pending e1 e2 o n he
+  exact hc.is_read
 
-/-- **C01 on a reader re-used after calls abandoned anywhere, the executor hop of `Frame.create`
-included**: a frame handed out by a later call is justified by the bytes THAT call consumed -/
+/-- corollary (the older form, lengths only) of `sessionX_delivered_bytes`: **C01 on a reader re-used after calls
+abandoned anywhere, the executor hop of `Frame.create` included** -/
 theorem sessionX_delivered_only_if_well_formed (steps : List Step) (f : Fields) (n : Nat)
     (h : SEv.call (.delivered f) n ∈ sessionX [] steps) :
     ∃ noise fr, n = (noise ++ fr).length ∧ (0x68 : Byte) ∉ noise ∧ wf fr f = true := by
-  obtain ⟨s', ho, hn⟩ := sessionX_calls_are_reads steps [] _ _ h
-  have hrf : readFrame s' = (.delivered f, (readFrame s').2) := by rw [← ho]
-  obtain ⟨noise, fr, hs, hno, hwf⟩ := delivered_only_if_well_formed hrf
-  refine ⟨noise, fr, ?_, hno, hwf⟩
-  have hl := congrArg List.length hs
-  simp only [List.length_append] at hl ⊢
-  omega
+  obtain ⟨e1, e2, he⟩ := List.append_of_mem h
+  obtain ⟨_, _, _, noise, fr, _, _, _, _, hn, hno, hwf⟩ := sessionX_delivered_bytes steps [] e1 e2 f n he
+  exact ⟨noise, fr, hn.symm, hno, hwf⟩
 
 /-- the three histories that matter (non-vacuity).  X = program-version request from ecoMAX, Y = ecoMAX-parameters
 request (other kind, addressing, versions, payload), U = a checksum-valid frame of an unknown kind 0x0f.
@@ -82,5 +49,15 @@ example :
     sessionX [] [.feed (encode X), .calls, .feed (encode X), .calls] =
       [.call (.delivered X) 10, .abandoned 0, .call (.delivered X) 10, .abandoned 0, .call .connLost 0] := by
   decide
+
+/-- history (a) read through `sessionX_calls_are_reads_of_the_fed_bytes`: the delivery of Y is the call at position
+10 + 0 + 12 = 22 of the 34 bytes fed by then (X, Y, Y); it took exactly the second copy of Y -/
+example :
+    let X : Fields := ⟨0x40, 0x56, 0x45, 0x30, 0x05, []⟩
+    let Y : Fields := ⟨0x31, 0x00, 0x51, 0x31, 0x06, [7, 3]⟩
+    CallAt (feedsOf [.feed (encode X), .calls, .feed (encode Y), .callAbandonedAtCreate, .feed (encode Y)])
+      (takenSum [.call (.delivered X) 10, .abandoned 0, .abandoned 12]) (.delivered Y) 12 :=
+  ⟨encode ⟨0x40, 0x56, 0x45, 0x30, 0x05, []⟩ ++ encode ⟨0x31, 0x00, 0x51, 0x31, 0x06, [7, 3]⟩,
+   encode ⟨0x31, 0x00, 0x51, 0x31, 0x06, [7, 3]⟩, [], by decide, by decide, by decide, by decide⟩
 
 end PlumVerif.C01
